@@ -222,7 +222,7 @@ MEM_KIB = 6 * 1024 * 1024
 TRANSLATOR_INFO = {}
 
 
-def run_cases(binary, cases, tag, timeout=900, shards=16):
+def run_cases(binary, cases, tag, timeout=900, shards=16, _depth=0):
     """cases: list of case lines.  Returns list of observation strings (same order)."""
     os.makedirs(RUN, exist_ok=True)
     n = len(cases)
@@ -230,6 +230,7 @@ def run_cases(binary, cases, tag, timeout=900, shards=16):
         return []
     shards = max(1, min(shards, (n + 49) // 50))
     procs = []
+    open_cases = {}
     per = (n + shards - 1) // shards
     for s in range(shards):
         part = cases[s * per:(s + 1) * per]
@@ -241,6 +242,7 @@ def run_cases(binary, cases, tag, timeout=900, shards=16):
         p = subprocess.Popen("ulimit -s unlimited 2>/dev/null || ulimit -s 1000000 2>/dev/null; ulimit -v %d 2>/dev/null; exec %s %s" % (MEM_KIB, binary, path),
                              shell=True, stdout=subprocess.PIPE, stderr=subprocess.DEVNULL, env=ENV)
         procs.append((p, len(part), path))
+        open_cases[id(p)] = part
     out = []
     for p, cnt, path in procs:
         try:
@@ -256,9 +258,17 @@ def run_cases(binary, cases, tag, timeout=900, shards=16):
             k, _, v = ln.partition(" ")
             if k.isdigit():
                 got[int(k)] = v
-        for i in range(1, cnt + 1):
-            out.append(got.get(i, "CRASH-OR-HANG"))
+        part_out = [got.get(i, "CRASH-OR-HANG") for i in range(1, cnt + 1)]
         os.unlink(path)
+        # a process that died (abort, stack overflow, kill after the time limit) takes the rest of its shard with it: the
+        # case it died on keeps CRASH-OR-HANG, the cases behind it are run again in a fresh process
+        missing = [i for i in range(cnt) if (i + 1) not in got]
+        if missing and missing[0] + 1 < cnt and _depth < 12:
+            first = missing[0]
+            part_cases = open_cases[id(p)]
+            redo = run_cases(binary, part_cases[first + 1:], tag + "r", timeout=timeout, shards=1, _depth=_depth + 1)
+            part_out[first + 1:] = redo
+        out += part_out
     return out
 
 
